@@ -111,23 +111,27 @@ theorem triN_rotate (a b c : V3 K) :
   simp only [triN, V3.cross, V3.sub, V3.mk.injEq]
   refine ⟨⟨?_, ?_, ?_⟩, ⟨?_, ?_, ?_⟩⟩ <;> ring
 
+/-- the norm is positively homogeneous (for any lawful square root): `|w • N| = w |N|` for `w ≥ 0` -/
+theorem norm_smul_of_nonneg (hs : LawfulSqrt sq) (N : V3 K) (w : K) (hw0 : 0 ≤ w) :
+    letI := fieldNum K sq
+    (N.smul w).norm = w * N.norm := by
+  letI : Num K := fieldNum K sq
+  simp only [V3.norm, V3.normSq, V3.dot, V3.smul, fieldNum_sqrt]
+  have e : N.x * w * (N.x * w) + N.y * w * (N.y * w) + N.z * w * (N.z * w) = w ^ 2 * (N.x * N.x + N.y * N.y + N.z * N.z) := by ring
+  have hnn : 0 ≤ N.x * N.x + N.y * N.y + N.z * N.z := by nlinarith [mul_self_nonneg N.x, mul_self_nonneg N.y, mul_self_nonneg N.z]
+  rw [e]
+  have h1 := hs.nonneg (N.x * N.x + N.y * N.y + N.z * N.z) hnn
+  have h2 := hs.sq_mul (N.x * N.x + N.y * N.y + N.z * N.z) hnn
+  have h3 := hs.nonneg (w ^ 2 * (N.x * N.x + N.y * N.y + N.z * N.z)) (by positivity)
+  have h4 := hs.sq_mul (w ^ 2 * (N.x * N.x + N.y * N.y + N.z * N.z)) (by positivity)
+  nlinarith [mul_nonneg hw0 h1, mul_nonneg h3 (mul_nonneg hw0 h1)]
+
 /-- **C17 (weights ⇒ areas)**: pieces whose vector areas are `λ_i • N` with `λ_i ≥ 0`, `Σ λ_i = 1` have areas `|λ_i • N| = λ_i |N|`
 that add up to `|N|` (for any lawful square root): conservation of the scalar area. -/
 theorem pieces_area_of_weights (hs : LawfulSqrt sq) (N : V3 K) (ws : List K) (hw : ∀ w ∈ ws, 0 ≤ w) (hsum : ws.sum = 1) :
     letI := fieldNum K sq
     (ws.map fun w => (N.smul w).norm).sum = N.norm := by
   letI : Num K := fieldNum K sq
-  have key : ∀ w : K, 0 ≤ w → (N.smul w).norm = w * N.norm := by
-    intro w hw0
-    simp only [V3.norm, V3.normSq, V3.dot, V3.smul, fieldNum_sqrt]
-    have e : N.x * w * (N.x * w) + N.y * w * (N.y * w) + N.z * w * (N.z * w) = w ^ 2 * (N.x * N.x + N.y * N.y + N.z * N.z) := by ring
-    have hnn : 0 ≤ N.x * N.x + N.y * N.y + N.z * N.z := by nlinarith [mul_self_nonneg N.x, mul_self_nonneg N.y, mul_self_nonneg N.z]
-    rw [e]
-    have h1 := hs.nonneg (N.x * N.x + N.y * N.y + N.z * N.z) hnn
-    have h2 := hs.sq_mul (N.x * N.x + N.y * N.y + N.z * N.z) hnn
-    have h3 := hs.nonneg (w ^ 2 * (N.x * N.x + N.y * N.y + N.z * N.z)) (by positivity)
-    have h4 := hs.sq_mul (w ^ 2 * (N.x * N.x + N.y * N.y + N.z * N.z)) (by positivity)
-    nlinarith [mul_nonneg hw0 h1, mul_nonneg h3 (mul_nonneg hw0 h1)]
   have : ∀ (l : List K), (∀ w ∈ l, 0 ≤ w) → (l.map fun w => (N.smul w).norm).sum = l.sum * N.norm := by
     intro l
     induction l with
@@ -135,7 +139,7 @@ theorem pieces_area_of_weights (hs : LawfulSqrt sq) (N : V3 K) (ws : List K) (hw
     | cons w l ih =>
       intro h
       simp only [List.map_cons, List.sum_cons]
-      rw [key w (h w (by simp)), ih (fun v hv => h v (by simp [hv]))]
+      rw [norm_smul_of_nonneg sq hs N w (h w (by simp)), ih (fun v hv => h v (by simp [hv]))]
       ring
   rw [this ws hw, hsum, one_mul]
 
